@@ -237,14 +237,18 @@ namespace nmtools::index
             auto n = len(indices);
             if constexpr (meta::is_resizable_v<return_t>)
                 ret.resize(n);
+            // negative axis counts from the end (numpy), as in shape_repeat
+            using axis_index_t = meta::promote_index_t<size_t,axis_t>;
+            const auto m_axis = static_cast<axis_index_t>(axis);
+            const auto n_axis = (m_axis < 0) ? static_cast<axis_index_t>(m_axis + static_cast<axis_index_t>(n)) : m_axis;
             for (size_t i=0; i<n; i++) {
                 using common_t = meta::promote_index_t<size_t,axis_t>;
                 auto idx = at(indices,i);
                 if constexpr (meta::is_index_v<repeats_t>) {
-                    at(ret,i) = (static_cast<common_t>(i)==static_cast<common_t>(axis) ? idx / repeats : idx);
+                    at(ret,i) = (static_cast<common_t>(i)==n_axis ? idx / repeats : idx);
                 } else {
                     auto csum = cumsum(repeats);
-                    if (static_cast<common_t>(i)==static_cast<common_t>(axis)) {
+                    if (static_cast<common_t>(i)==n_axis) {
                         // note: len(repeats) == shape[axis]
                         // simply find arg of repeats such that idx >= accumulate(repeats)[args]
                         auto f = [&](auto a){
